@@ -2,7 +2,7 @@
    by `exact <lemma>`, and Print Assumptions.  Model: Model/Abandon.v (interleaving semantics, one
    transition per atomic access).  The coordinator owns Properties/C09.v. *)
 From Coq Require Import NArith ZArith List Bool.
-From MiV Require Import Gen.Consts Model.Abandon Proofs.AbandonProofs Proofs.AbandonTrace Proofs.AbandonOpen.
+From MiV Require Import Gen.Consts Model.Abandon Proofs.AbandonProofs Proofs.AbandonTrace Proofs.AbandonCount Proofs.AbandonOpen.
 Import ListNotations.
 Local Open Scope N_scope.
 
@@ -90,9 +90,23 @@ Theorem C09_never_delayed_goes_to_page_list : forall st0 st,
 Proof. exact never_delayed_lemma. Qed.
 Print Assumptions C09_never_delayed_goes_to_page_list.
 
+(* the accounting of subproc->abandoned_count: in every reachable state, for every sub-process, the count is the number of
+   marked segments of the sub-process plus the corrections of the threads that stand between the change of a mark and the
+   change of the count (+1 after a clear, -1 after a mark: Proofs/AbandonCount.v, pend_seg) ... *)
+Theorem C09_abandoned_count_inv : forall st0 st sp,
+  Inv st0 -> count_inv st0 sp -> reachable st0 st -> count_inv st sp.
+Proof. exact reachable_count. Qed.
+Print Assumptions C09_abandoned_count_inv.
+
+(* ... hence it is exact whenever every thread is between two calls *)
+Theorem C09_abandoned_count_quiescent : forall st0 st sps,
+  inv_b st0 = true -> quiescent st0 = true -> count_ok_b st0 sps = true ->
+  reachable st0 st -> quiescent st = true -> count_ok_b st sps = true.
+Proof. exact abandoned_count_quiescent. Qed.
+Print Assumptions C09_abandoned_count_quiescent.
+
 (* never leaked: stated, not proved (Proofs/AbandonOpen.v); exercised by the example below and the simulator *)
 Definition C09_full_collect_frees_dead_abandoned : Prop := collect_frees_dead_abandoned_stmt.
-Definition C09_full_abandoned_count_quiescent : Prop := abandoned_count_quiescent_stmt.
 
 (* ---- non-vacuity ---- *)
 Example C09_example_init : inv_b ex_st0 = true.
